@@ -49,7 +49,8 @@ def gen_op(tape, prop, npairs, lend, bias):
     if not lend:
         w[2] = 1 if prop in ("C07", "C10") else 0     # borrow requests without lending must fail (C10)
         w[3] = 0
-    kind = tape.weighted(list(zip(w, ["order", "cancel", "loan", "repay", "invalid", "edge"])))
+    w.append(1 if prop in ("C04", "C08", "C01") else 0)      # "reprec": a symbol's precision is made finer mid-run
+    kind = tape.weighted(list(zip(w, ["order", "cancel", "loan", "repay", "invalid", "edge", "reprec"])))
     op = dict(kind=kind, yields=tape.weighted([(5, 0), (2, 1), (1, 2), (1, 3)]),
               sleep=tape.weighted([(8, 0), (1, 1), (1, 2)]))
     if kind in ("order", "edge", "invalid"):
@@ -75,6 +76,8 @@ def gen_op(tape, prop, npairs, lend, bias):
                   amt=tape.draw(1000))
     elif kind == "repay":
         op.update(which=tape.weighted([(6, "open"), (2, "closed"), (1, "unknown")]), k=tape.draw(50))
+    elif kind == "reprec":
+        op.update(sym=tape.draw(5), by=1 + tape.draw(2))
     return op
 
 
@@ -121,6 +124,9 @@ def build(tape, prop, tier):
     minfee = (D(tape.int(0, 300)) / 100).quantize(D(1).scaleb(-qp)) if fee_kind == "pctmin" else D(0)
     if fee_kind == "pctmin" and tape.chance(0.3):
         minfee = D(tape.int(0, 5000)).scaleb(-min(qp, 6))       # off-grid minimum fee is allowed: fee is rounded up
+    if prop in ("C08", "C01", "C02", "C06", "C05") and tape.chance(0.08):
+        fee_kind = "received"          # user-defined scheme charging buys in the asset they receive
+        minfee = D(0)
     s["fee"] = dict(kind=fee_kind, pct=str(pct), min=str(minfee))
     if prop in ("C08",):
         liq_kind = tape.choice(["vs", "vs", "vs", "inf"])
